@@ -165,6 +165,7 @@ class Engine:
         self.concrete = False
         self.const_overrides = {}
         self.auto_inline = True
+        self.abstract_isinstance = True
         self._inline_depth = 0
         self.ext_base_methods = {}
         self.modattrs = {}
@@ -898,6 +899,12 @@ class Engine:
             raise PyRaise("AttributeError", ("'NoneType' object has no attribute %r" % name,), node)
         raise Unsupported("getattr %s on %r" % (name, obj))
 
+    def _fld(self, v, obj):
+        if isinstance(v, Stale):
+            self.prove("stale-field:%s.%s-%s" % (obj.cls, v.name, v.why.replace(" ", "-")), False, props=v.props)
+            raise PathEnd()
+        return v
+
     def getattr_ref(self, obj, name):
         hook = self.attr_hooks.get(("get", obj.cls))
         if hook is not None:
@@ -911,7 +918,7 @@ class Engine:
             if m is not None and m[0] == "property":
                 return self.call_value(BoundMethod(obj, m[1]["get"]), [], {})
             if name in flds:
-                return flds[name]
+                return self._fld(flds[name], obj)
             if m is not None:
                 if m[0] == "method":
                     return BoundMethod(obj, m[1])
@@ -1449,6 +1456,63 @@ class Engine:
             out.append(self.eval(e.elt, f2))
         return seq_lit("list", out, new_aid())
 
+    def e_DictComp(self, e, fr):
+        if len(e.generators) != 1:
+            raise Unsupported("dict comprehension shape")
+        g = e.generators[0]
+        items = self.iter_concrete(self.force(self.eval(g.iter, fr)))
+        d = DictVal()
+        f2 = fr.child()
+        for it in items:
+            self.assign(g.target, it, f2)
+            if not all(self.decide(self.truth(self.eval(c, f2))) for c in g.ifs):
+                continue
+            kv = self.eval(e.key, f2)
+            if not isinstance(kv, (str, int)) or isinstance(kv, bool):
+                raise Unsupported("dict comprehension key %r" % (kv,))
+            d.entries[kv] = (True, self.eval(e.value, f2))
+        return d
+
+    def b_any(self, args, kwargs, node, fr):
+        return self._anyall(args, True)
+
+    def b_all(self, args, kwargs, node, fr):
+        return self._anyall(args, False)
+
+    def _anyall(self, args, is_any):
+        (v,) = args
+        v = self.force(v)
+        if isinstance(v, GenVal) and v.kind == "map":
+            src = self.force(v.src)
+            if isinstance(src, (tuple, list)) or (isinstance(src, Seq) and src.items is not None):
+                # lazily, in order, with short circuit (Python semantics)
+                for x in (src if isinstance(src, (tuple, list)) else src.items):
+                    self.assign(v.target, x, v.frame)
+                    t = self.decide(self.truth(self.eval(v.elt, v.frame)))
+                    if t == is_any:
+                        return is_any
+                return not is_any
+            raise Unsupported("any()/all() over a generator expression on a symbolic iterable")
+        if isinstance(v, (tuple, list, bytes)) or (isinstance(v, Seq) and v.items is not None):
+            for x in (v if isinstance(v, (tuple, list, bytes)) else v.items):
+                t = self.decide(self.truth(x))
+                if t == is_any:
+                    return is_any
+            return not is_any
+        if isinstance(v, Seq) and v.kind == "bytes":
+            # symbolic bytes: any(data) <=> some byte is non-zero.  One direction carries a witness index; the other
+            # (all bytes zero) is recorded as a quantified fact for instantiation by models that ask for it.
+            b = z3.Bool(fresh_name("any_nonzero" if is_any else "all_nonzero"))
+            k = z3.Int(fresh_name("k"))
+            el = I(v.at(k))
+            if is_any:
+                self.assume(z3.Implies(b, z3.And(0 <= k, k < I(v.n), el != 0)))
+                self.st.ghost.setdefault("all_zero_facts", []).append((z3.Not(b), v))
+            else:
+                self.assume(z3.Implies(z3.Not(b), z3.And(0 <= k, k < I(v.n), el == 0)))
+            return b
+        raise Unsupported("any()/all() over %r" % (v,))
+
     def iter_concrete(self, v):
         if isinstance(v, (tuple, list)):
             return list(v)
@@ -1826,7 +1890,7 @@ class Engine:
         if name in ("list", "tuple", "dict"):
             return k == name
         if isinstance(v, Ref):
-            if v.cls in self.prog.classes or name in self.prog.classes:
+            if v.cls in self.prog.classes:
                 isa = self.st.ghost.get("isa", {}).get(v.oid)
                 if isa is not None and name in isa:
                     return isa[name]
@@ -1834,6 +1898,26 @@ class Engine:
             isa = self.st.ghost.get("isa", {}).get(v.oid)
             if isa is not None and name in isa:
                 return isa[name]
+            if name in self.prog.classes and self.abstract_isinstance:
+                # an abstract (interface-typed) object stands for ANY implementation of the interface: whether it is an
+                # instance of a concrete repository class is unknown -- a symbolic Boolean, consistent with what is
+                # already known about it (subclass => superclass)
+                known = isa or {}
+                for other, val in known.items():
+                    if other in self.prog.classes:
+                        if val is True and self.prog.is_subclass(other, name):
+                            return True
+                        if val is False and self.prog.is_subclass(name, other):
+                            return False
+                b = z3.Bool(fresh_name("isa.%s.%s" % (v.cls, name)))
+                for other, val in known.items():
+                    if other in self.prog.classes and z3.is_expr(val):
+                        if self.prog.is_subclass(other, name):
+                            self.assume(z3.Implies(val, b))
+                        if self.prog.is_subclass(name, other):
+                            self.assume(z3.Implies(b, val))
+                self.st.ghost.setdefault("isa", {}).setdefault(v.oid, {})[name] = b
+                return b
             return False
         if isinstance(v, Opq):
             f = self.st.ghost.get("isinstance_fn")
@@ -2003,6 +2087,27 @@ class Engine:
                 raise Unsupported("dict.get of unmodelled key %r" % key)
             if name == "copy":
                 return obj.copy()
+            if name == "pop":
+                key = args[0]
+                has_default = len(args) > 1
+                default = args[1] if has_default else None
+                if not isinstance(key, (str, int)) or isinstance(key, bool):
+                    raise Unsupported("dict.pop with non-literal key")
+                if key in obj.entries:
+                    p, v = obj.entries[key]
+                    if has_default:
+                        r = (v if p else default) if isinstance(p, bool) else lazy_ite(p, v, default)
+                    else:
+                        if not self.decide(p):
+                            raise PyRaise("KeyError", (key,))
+                        r = v
+                    obj.entries[key] = (False, None)
+                    return r
+                if obj.rest_absent:
+                    if has_default:
+                        return default
+                    raise PyRaise("KeyError", (key,))
+                raise Unsupported("dict.pop of unmodelled key %r" % key)
             if name == "update":
                 for a_ in args:
                     a_ = self.force(a_)
@@ -2134,6 +2239,14 @@ class Havoc:
 
     def __init__(self, name):
         self.name = name
+
+
+class Stale:
+    """Value of an object field that holds whatever an earlier use of the object left there.  Reading it (before it is
+    written) is an obligation failure: the result would depend on the object's history."""
+
+    def __init__(self, name, props=("*",), why="is not reset and is read before being written"):
+        self.name, self.props, self.why = name, tuple(props), why
 
 
 class SliceVal:
